@@ -952,6 +952,102 @@ impl Stream for PointerMatrix
 	}
 }
 
+/// the documented array-to-view / slice coercions hold for the outermost
+/// dimension only: every inner length and the element type must be identical
+struct ArrayCoercions;
+impl ArrayCoercions
+{
+	/// (argument type, parameter type, by pointer, accepted)
+	fn cells() -> Vec<(String, String, bool, bool)>
+	{
+		let mut v = Vec::new();
+		for by_pointer in [false, true]
+		{
+			let amp = if by_pointer { "&" } else { "" };
+			for (ta, tp) in [("i32", "i32"), ("u8", "u8"), ("i32", "u8"), ("u16", "i16")]
+			{
+				// one dimension
+				for k in 1..=3
+				{
+					v.push((format!("[{k}]{ta}"), format!("{amp}[]{tp}"), by_pointer, ta == tp));
+				}
+				// two dimensions
+				for k in 2..=4
+				{
+					for n in 2..=4
+					{
+						v.push((format!("[2][{k}]{ta}"), format!("{amp}[][{n}]{tp}"), by_pointer, ta == tp && k == n));
+					}
+				}
+			}
+			// three dimensions
+			for k in 2..=3
+			{
+				for n in 2..=3
+				{
+					for q in 2..=3
+					{
+						for r in 2..=3
+						{
+							v.push((format!("[2][{k}][{q}]i32"), format!("{amp}[][{n}][{r}]i32"), by_pointer, k == n && q == r));
+						}
+					}
+				}
+			}
+		}
+		v
+	}
+}
+impl Stream for ArrayCoercions
+{
+	fn name(&self) -> String
+	{
+		"array-coercions".into()
+	}
+	fn count(&self, _tier: Tier) -> u64
+	{
+		Self::cells().len() as u64
+	}
+	fn exhaustive(&self) -> bool
+	{
+		true
+	}
+	fn run(&self, idx: u64, _c: &mut Choices, ctx: &RunCtx) -> CaseOut
+	{
+		let mut out = CaseOut::default();
+		out.key = idx;
+		out.nontrivial = true;
+		let (arg, param, by_pointer, expect_ok) = Self::cells()[idx as usize].clone();
+		let amp = if by_pointer { "&" } else { "" };
+		let src = format!("fn f(x: {param})\n{{\n}}\n\nfn main() -> i32\n{{\n\tvar a: {arg};\n\tf({amp}a);\n\treturn: 0\n}}\n");
+		let o = alpha::compile_modules(&[("main.pn".into(), src.clone())], alpha::Options::default());
+		let label = format!("{} as {}", arg, param);
+		let detail = json!({"source": src, "result": o.summary()});
+		out.class(if expect_ok { "coercion:documented" } else { "coercion:ill-typed" });
+		if let Some(e) = &o.internal_error
+		{
+			out.fail(format!("internal error {}", e.chars().take(50).collect::<String>()), detail);
+		}
+		else if expect_ok && !o.ok
+		{
+			out.fail(format!("documented coercion rejected: {} {:?}", label, o.codes), detail);
+		}
+		else if !expect_ok && o.ok
+		{
+			out.fail(format!("ill-typed argument accepted: {}", label), detail);
+		}
+		else if !expect_ok && !o.codes.iter().any(|c| (500..=552).contains(c))
+		{
+			out.fail(format!("ill-typed argument {} rejected with {:?}, none of which is a typing error", label, o.codes), detail);
+		}
+		if ctx.want_sample
+		{
+			out.sample = Some(json!({"source": src, "expected_accepted": expect_ok}));
+		}
+		out
+	}
+}
+
 /// every accepted generated program satisfies the typing invariants
 struct Invariants;
 impl Stream for Invariants
@@ -1023,6 +1119,7 @@ impl Check for C07
 	}
 	fn streams(&self) -> Vec<Box<dyn Stream>>
 	{
-		vec![Box::new(Matrix), Box::new(CastsAndUnary), Box::new(PointerMatrix), Box::new(Edits), Box::new(GeneratedEdits), Box::new(Invariants)]
+		vec![Box::new(Matrix), Box::new(CastsAndUnary), Box::new(PointerMatrix),
+			Box::new(ArrayCoercions), Box::new(Edits), Box::new(GeneratedEdits), Box::new(Invariants)]
 	}
 }
